@@ -23,6 +23,7 @@ func ValueTexts(tier string) []string {
 		`1 + 2`, `decl.foo == 1`, `!decl.foo`, `-1`, `true ? decl.foo : "b"`, `true ? null : "a"`, `(decl.foo)`, `decl.foo[decl.foo.bar]`, `decl.foo.*.id`,
 		`["a", true, f]`, `[1, 2, 3]`, `{ foo = "x", "${decl.foo}" = 1 }`, `{ foo = "x", (decl.foo) = true }`, `{ foo = "x", 42 = 1 }`, `provider::aws::x€ `, `provider::aw» y`,
 		`fn2(1, )`, `fn(fn2(1, ), "b")`, `[decl.foo, decl.bar, decl.foo]`,
+		"{\r\n}\r", "{\r\n  foo = \"x\"\r\n}\r", "[\r\n  \"a\",\r\n]\r", "fn(\r\n  \"a\"\r\n)\r", `[null, "b"]`,
 		`string`, `list(string)`, `object({a=string})`, `tuple([string, bool])`, `map(any)`, `object({a=optional(string)})`, `list(`, `object({`, `any`,
 	}
 	if tier == "thorough" {
@@ -140,6 +141,10 @@ func EditsLevel(text string, level int) []string {
 			add(text[:off] + t + text[off:])
 		}
 	}
+	// the file begins with something that is no token of the body (every tier)
+	add(" " + text)
+	add("/* c */ " + text)
+	add("\t\n" + text)
 	if full {
 		for _, b := range tb {
 			for _, t := range EditTokens {
